@@ -530,5 +530,11 @@ package circuitbreaker
 //@   ensures [C04.open_blocks_function] k0 == OpenState && now - old(asref(e.state, *openState).startTime) < old(asref(e.state, *openState).delay) ==> ncalls(innerFn) == 0 && result.Error == ErrOpen
 //@   ensures [C04.refused_means_erropen] ncalls(innerFn) == 0 ==> result.Error == ErrOpen && !result.Success
 //@   ensures [C04.at_most_once] ncalls(innerFn) <= 1
+//@   oldlet posts := 0
+//@   oldlet postf := 0
+//@   oncall (*executor).OnSuccess: posts := posts + 1
+//@   oncall (*executor).OnFailure: postf := postf + 1
+//@   ensures [C04.admitted_is_recorded+C03.executor.records_every_admitted] ncalls(innerFn) == 1 ==> posts + postf == 1
+//@   ensures [C04.refused_records_nothing] ncalls(innerFn) == 0 ==> posts + postf == 0
 //@   havoc
 //@   modifies e.circuitBreaker.state, alloftype(halfOpenState), alloftype(countingStats), alloftype(timedStats), alloftype(stat), alloftype(bitset.BitSet), calls(innerFn), calls(e.openListener), calls(e.closeListener), calls(e.halfOpenListener), calls(e.stateChangedListener), calls(e.DelayFunc), calls(e.onSuccess), calls(e.onFailure), methodcalls
